@@ -67,6 +67,21 @@ def valid_case(draw, max_leaves):
 
 
 @st.composite
+def cancel_case(draw):
+    """total dimension zero: a dimensional pair cancels (possibly with different prefixes) next to a dimensionless unit
+    that carries a factor (%, ppth, [pi] ...); Quantity(1,text) must hold the product of ALL factors exactly once"""
+    from ..refs import unit_gens as G
+    d = draw(st.sampled_from(G.NONZERO_DIMS))
+    a = G.atom(*draw(st.sampled_from(G.GROUPS_PLAIN[d])))
+    b = G.atom(*draw(st.sampled_from(G.GROUPS_PLAIN[d])))
+    x = G.atom(*draw(st.sampled_from(G.NODIM_FACTOR)))
+    form = draw(st.sampled_from(["x*a/b", "a*x/b", "a/b*x", "a/(b*x)"]))
+    t = {"x*a/b": ["/", ["*", x, a], b], "a*x/b": ["/", ["*", a, x], b], "a/b*x": ["*", ["/", a, b], x],
+         "a/(b*x)": ["/", a, ["*", b, x]]}[form]
+    return {"kind": "expr", "tree": t}
+
+
+@st.composite
 def reject_case(draw, max_leaves):
     t = draw(tree(max_leaves).filter(lambda x: any(l[0] == "u" for l in R.leaves(x))))
     ul = [l for l in R.leaves(t) if l[0] == "u"]
@@ -96,6 +111,7 @@ def strategies(tier):
     q, t = (6, 14)
     return {
         "valid": (valid_case(q if tier == "quick" else t), 2500, 60000),
+        "cancel": (cancel_case(), 400, 8000),
         "reject": (reject_case(q if tier == "quick" else t), 1500, 30000),
         "atom_random": (atom_case(), 1500, 30000),
     }
